@@ -176,24 +176,54 @@ def lexer_regex_families(ctx):
         "ident_run": lambda n: "a" * n + "$",
         "backslashes": lambda n: '"' + "\\\\" * n,
         "line_directive_flags": lambda n: "# 1 \"f\" " + "1 " * n + "x\n",
+        "closed_escape_run_in_char": lambda n: "'" + "\\n" * n + "'",
+        "closed_hex_escape_run_in_char": lambda n: "'" + "\\x41" * n + "'",
+        "closed_mixed_run_in_char": lambda n: "'" + "a\\0" * n + "'",
+        "closed_escape_run_in_string": lambda n: '"' + "\\n" * n + '"',
+        "closed_bad_escape_run_in_string": lambda n: '"' + "\\n" * n + "\\(" + '"',
+        "prefixed_closed_run": lambda n: "L'" + "\\\\" * n + "'",
     }
-    for name, f in fams.items():
-        times = []
-        for n in (2000, 4000):
-            best = 9e9
-            for _ in range(3):
-                errs = []
-                lx = c_lexer.CLexer(lambda m, l, c: errs.append(m), lambda: None, lambda: None, lambda s: False)
-                lx.input(f(n), "r.c")
-                t0 = time.perf_counter()
-                k = 0
+    import signal
+
+    def _alarm(sig, frm):
+        raise TimeoutError()
+
+    def lex_time(text, n):
+        """CPU seconds (best of 3) the lexer needs for `text`; a run is cut off after 5 s of wall time."""
+        best = 9e9
+        for _ in range(3):
+            lx = c_lexer.CLexer(lambda m, l, c: None, lambda: None, lambda: None, lambda s: False)
+            lx.input(text, "r.c")
+            old = signal.signal(signal.SIGALRM, _alarm)
+            signal.alarm(5)
+            t0 = time.process_time()
+            k = 0
+            try:
                 while lx.token() is not None and k < 3 * n + 10:
                     k += 1
-                best = min(best, time.perf_counter() - t0)
-            times.append(best)
+            except TimeoutError:
+                pass
+            finally:
+                signal.alarm(0)
+                signal.signal(signal.SIGALRM, old)
+            best = min(best, time.process_time() - t0)
+            if best > 2.0:
+                break
+        return best
+
+    for name, f in fams.items():
+        # short inputs: an exponential pattern needs seconds for a few dozen characters
+        small = [lex_time(f(n), n) for n in (12, 24)]
         ctx.count(2)
-        if times[1] > 0.5 or (times[0] > 0.02 and times[1] > 3.5 * times[0] + 0.01):
-            ctx.fail("lexer regex family %s: %.3fs at 2000, %.3fs at 4000 characters" % (name, times[0], times[1]),
+        if max(small) > 0.5:
+            ctx.fail("lexer regex family %s: %.2f s of CPU for an input of %d characters" % (name, max(small), len(f(24))),
+                     dict(kind="regex", family=name))
+            continue
+        # growth: two successive doublings both far above linear, or seconds for a few thousand characters
+        big = [lex_time(f(n), n) for n in (2000, 4000, 8000)]
+        ctx.count(3)
+        if max(big) > 3.0 or (big[0] > 0.01 and big[1] > 3.2 * big[0] and big[2] > 3.2 * big[1]):
+            ctx.fail("lexer regex family %s: CPU seconds %s at sizes (2000, 4000, 8000)" % (name, ["%.3f" % t for t in big]),
                      dict(kind="regex", family=name))
     ctx.note("lexer_regex_families", sorted(fams))
 
@@ -229,8 +259,8 @@ def run(tier):
     if tier == "quick":
         keys = ones + rnd.sample(twos, min(len(twos), 140))
     else:
-        keys = ones + twos + rnd.sample(threes, min(len(threes), 2500))
-    sizes = [6, 12, 24] if tier == "quick" else [16, 32, 64, 128]
+        keys = ones + twos + rnd.sample(threes, min(len(threes), 600))
+    sizes = [6, 12, 24] if tier == "quick" else [8, 16, 32, 64]
     jobs = [("+".join(p["n"] for p in fams[k]), [max(2, s // len(k)) * 1 for s in sizes] if False else sizes, "cycle", fams[k]) for k in keys]
     esizes = [32, 64, 128] if tier == "quick" else [64, 128, 256, 512]
     jobs += [(n, esizes, "extra", n) for n in sorted(EXTRA)]
